@@ -77,6 +77,9 @@ pub struct C11Plan {
     pub mode: Mode,
     pub sched: Sched,
     pub paced_cuts: Vec<u32>,
+    /// The terminal -> client stream ends after this many bytes (connection lost mid-upload).
+    #[serde(default)]
+    pub cut: Option<(u32, crate::conn::CloseKind)>,
 }
 
 fn content(seed: u64, id: u8, size: u32) -> Vec<u8> {
@@ -164,6 +167,7 @@ pub fn run_plan(plan: &C11Plan, want_trace: bool) -> RunOut {
     ex.mode = plan.mode;
     ex.tail = rc::ACK.to_vec();
     ex.paced_cuts = plan.paced_cuts.clone();
+    ex.cut = plan.cut;
     let log: SharedLog = Arc::new(Mutex::new(Log::default()));
     let trec = Arc::new(Mutex::new(TermRecord::default()));
     let term = ScriptTerm::new(&ex, trec.clone());
@@ -355,11 +359,26 @@ pub fn run_plan(plan: &C11Plan, want_trace: bool) -> RunOut {
         _ => out.fail("command", sig.clone(), format!("first frame is not a decodable 08 14: {}", crate::conn::hex(cmd))),
     }
     // (2)..(4) the script
+    let avail = plan.cut.map(|c| c.0 as u64).unwrap_or(u64::MAX);
     let mut end_off = 3u64; // after the terminal's acknowledgement
     let mut expect_items = 0usize;
     let mut expect_answers: Vec<(Vec<u8>, u64)> = vec![]; // (kind marker or expected payload, end offset)
-    let mut error_expected = false;
+    let mut error_expected = avail < 3;
+    let mut cut_hit = avail < 3;
+    if cut_hit {
+        out.stats.hit("fault.stream_cut");
+    }
     for (i, r) in plan.requests.iter().enumerate() {
+        if error_expected {
+            break;
+        }
+        if end_off + replies[i].len() as u64 > avail {
+            // the connection ends inside (or before) this request: one error, nothing more is sent
+            error_expected = true;
+            cut_hit = true;
+            out.stats.hit("fault.stream_cut");
+            break;
+        }
         end_off += replies[i].len() as u64;
         let valid = match r {
             Req::Data { id, .. } => announced.contains_key(id),
@@ -396,11 +415,17 @@ pub fn run_plan(plan: &C11Plan, want_trace: bool) -> RunOut {
     }
     let mut final_end = None;
     if !error_expected {
-        end_off += replies[plan.requests.len()].len() as u64;
-        expect_items += 1;
-        final_end = Some(end_off);
+        if end_off + replies[plan.requests.len()].len() as u64 > avail {
+            error_expected = true;
+            cut_hit = true;
+            out.stats.hit("fault.stream_cut");
+        } else {
+            end_off += replies[plan.requests.len()].len() as u64;
+            expect_items += 1;
+            final_end = Some(end_off);
+        }
     }
-    let read_limit = end_off;
+    let read_limit = if cut_hit { avail.min(ex.stream().len() as u64) } else { end_off };
     // answers written
     let answers = &frames[1..];
     let want_answers = expect_answers.len() + if error_expected { 0 } else { 1 };
@@ -550,6 +575,7 @@ pub fn run_plan(plan: &C11Plan, want_trace: bool) -> RunOut {
         }
         let full = ex.stream();
         let released = (h.released_total() as usize).min(full.len());
+        let _ = cut_hit;
         let end = (final_end.unwrap_or(0) as usize).min(released);
         if h.unread() != full[end..released] {
             out.fail("tail_damaged", sig.clone(), "bytes queued behind the final packet are not intact");
@@ -670,7 +696,12 @@ pub fn random_plan(rng: &mut Rng, max_size: u32) -> C11Plan {
         mode,
         sched: if rng.pct(50) { Sched::whole() } else { Sched::random(rng) },
         paced_cuts: vec![],
+        cut: None,
     };
+    if rng.pct(12) {
+        let len: u64 = 3 + p.requests.iter().map(|r| request_frame(r).len() as u64).sum::<u64>() + 4;
+        p.cut = Some((rng.below(len + 1) as u32, if rng.pct(70) { crate::conn::CloseKind::Eof } else { crate::conn::CloseKind::Reset }));
+    }
     if mode == Mode::Paced {
         let len: usize = 3 + p.requests.iter().map(|r| request_frame(r).len()).sum::<usize>() + 6;
         p.paced_cuts = crate::c05::random_paced_cuts(rng, len);
@@ -712,6 +743,7 @@ impl Check for C11 {
                 mode: Mode::Lockstep,
                 sched: Sched::whole(),
                 paced_cuts: vec![],
+                cut: None,
             }
         }));
         let (count, max_size) = match tier {
@@ -742,6 +774,11 @@ impl Check for C11 {
         p.mode = Mode::Lockstep;
         p.paced_cuts.clear();
         push(p);
+        if plan.cut.is_some() {
+            let mut p = plan.clone();
+            p.cut = None;
+            push(p);
+        }
         for i in 0..plan.requests.len() {
             let mut p = plan.clone();
             p.requests.remove(i);
@@ -790,7 +827,7 @@ impl Check for C11 {
     }
 
     fn rule_text(&self) -> String {
-        "one run = the real WriteFile::into_stream over a payload directory written by the simulator (PRNG subset of the 21 recognised paths incl. none, unrelated files and directories, sizes {0,1,block-1,block,block+1,2*block,PRNG <= 200 KiB}, PRNG content) with block size from {1,2,127,128,255,256,1024,32768,PRNG} against a scripted terminal (request script: any order, repeats, overlaps, offsets at/after end of file, unknown ids, requests without id / offset / container / TLV; ends in completion or abort) x lockstep/eager/paced x I/O schedules; distinct = hash of (file count, block size, mode, per-request class); every run is non-trivial".into()
+        "one run = the real WriteFile::into_stream over a payload directory written by the simulator (PRNG subset of the 21 recognised paths incl. none, unrelated files and directories, sizes {0,1,block-1,block,block+1,2*block,PRNG <= 200 KiB}, PRNG content) with block size from {1,2,127,128,255,256,1024,32768,PRNG} against a scripted terminal (request script: any order, repeats, overlaps, offsets at/after end of file, unknown ids, requests without id / offset / container / TLV; ends in completion or abort; in 12 % of the PRNG runs the connection is lost at a PRNG byte offset: one error, nothing more is sent) x lockstep/eager/paced x I/O schedules; distinct = hash of (file count, block size, mode, per-request class); every run is non-trivial".into()
     }
     fn assumptions(&self) -> Vec<String> {
         vec![
@@ -822,6 +859,7 @@ impl Check for C11 {
             "fault.request_without_offset",
             "fault.request_without_container",
             "fault.request_without_tlv",
+            "fault.stream_cut",
         ]
     }
 }
